@@ -489,6 +489,25 @@ func c16R5(c *Ctx) {
 		return
 	}
 	cacheF := p.Field(clientPkg, "SimpleIdempotentKeyGenerator", "cache")
+	// the generator's mutex: its one field of a sync mutex type, whatever it is called
+	muName := ""
+	if o := p.LookupObj(clientPkg, "SimpleIdempotentKeyGenerator"); o != nil {
+		if st, ok := o.Type().Underlying().(*types.Struct); ok {
+			for i := 0; i < st.NumFields(); i++ {
+				if typeIs(st.Field(i).Type(), "sync", "Mutex", "RWMutex") {
+					if muName != "" {
+						muName = "?"
+					} else {
+						muName = st.Field(i).Name()
+					}
+				}
+			}
+		}
+	}
+	if muName == "" || muName == "?" {
+		c.Unres("C16.R5", "SimpleIdempotentKeyGenerator mutex field", "no single sync.Mutex field")
+		return
+	}
 	for _, fn := range p.FuncsInPkg(clientPkg) {
 		if recvTypeOf(fn) != "SimpleIdempotentKeyGenerator" {
 			continue
@@ -499,7 +518,7 @@ func c16R5(c *Ctx) {
 		ast.Inspect(fn.Decl.Body, func(k ast.Node) bool {
 			if sel, ok := k.(*ast.SelectorExpr); ok && fieldOf(info, sel) == cacheF {
 				held := la.HeldBefore(sel)
-				_, ok := held[objID(recv)+".mu"]
+				_, ok := held[objID(recv)+"."+muName]
 				if !ok && !isExported(fn.Decl.Name.Name) {
 					// a helper that requires the mutex held: judged at its call sites
 					sites := p.CallsTo(nil, fn.Obj)
@@ -509,7 +528,7 @@ func c16R5(c *Ctx) {
 							heldAt := NewLockAnalysis(p, cs.Fn).HeldBefore(cs.Call)
 							if rs, isSel := ast.Unparen(cs.Call.Fun).(*ast.SelectorExpr); isSel {
 								if ro := identObj(cs.Fn.Info(), rs.X); ro != nil {
-									_, okSite = heldAt[objID(ro)+".mu"]
+									_, okSite = heldAt[objID(ro)+"."+muName]
 								}
 							}
 							c.Check(okSite, "C16.R5", fn.Key()+": cache access under the mutex (helper called with the mutex held, in "+cs.Fn.Key()+")", p.Pos(cs.Call), cs.Fn.Key(), "held ∋ g.mu at the call", heldAt.String())
